@@ -50,8 +50,23 @@ pub fn set_callback(callback: Option<Callback>) {
     *CALLBACK.write().unwrap() = callback;
 }
 
+thread_local! {
+    static SUPPRESSED: std::cell::Cell<bool> = const { std::cell::Cell::new(false) };
+}
+
+/// Runs `f` with the yield points of the calling thread switched off.
+pub fn without_yield<R>(f: impl FnOnce() -> R) -> R {
+    let old = SUPPRESSED.with(|s| s.replace(true));
+    let r = f();
+    SUPPRESSED.with(|s| s.set(old));
+    r
+}
+
 #[inline]
 pub fn yield_point(point: Point) {
+    if SUPPRESSED.with(|s| s.get()) {
+        return;
+    }
     let callback = CALLBACK.read().unwrap().clone();
     if let Some(callback) = callback {
         callback(point);
